@@ -65,8 +65,12 @@ Definition get_converter (d : cdir) (f : tfmt) : bool :=
   else if c_colo d then true      (* self is Colo, format is (an instance of) BzrDirMetaFormat1 *)
   else false.
 
-(* Converter5to6: a new format-6 branch is filled from the old one's fields; tags start empty *)
-Definition conv5to6 (p : bpay) : bpay := mkBP (bp_tip p) [] (bp_parent p) (bp_bound p) (bp_push p).
+(* Converter5to6: a new format-6 branch is filled from the old one's fields; tags start empty.
+   new_branch.set_push_location(branch.get_push_location()) stores the string "" when there is no
+   push location (location 0 stands for the empty string): get_push_location() then answers ""
+   instead of None.  set_parent(None) also stores "", which get_parent() reads back as None. *)
+Definition conv5to6 (p : bpay) : bpay :=
+  mkBP (bp_tip p) [] (bp_parent p) (bp_bound p) (Some (match bp_push p with Some l => l | None => 0 end)).
 
 (* one turn of the `while old != new` loop; None = raise BadConversionTarget *)
 Definition branch_step (old new : nat) (p : bpay) : option (nat * bpay) :=
